@@ -485,6 +485,11 @@ func (a *Act) callMods(li *loopInfo, m *modSet, c ssa.CallInstruction, depth int
 			return
 		}
 		if com.IsInvoke() {
+			if _, ok := invokeIntrinsics[shortType(com.Value.Type())+"."+com.Method.Name()]; ok {
+				m.heap(outHeap, "Int").unknown = true
+				m.heap(outOKHeap, "Bool").unknown = true
+				return
+			}
 			if fns, ok := a.closedWorldTargets(com); ok {
 				for _, fn := range fns {
 					for _, b := range fn.Blocks {
@@ -691,6 +696,7 @@ func (a *Act) loopHead(li *loopInfo, st *State, preds []edgeState) *State {
 			h.heaps[name] = u.FreshHeap(name, srt)
 		}
 		h.havocGen = u.newHavocGen()
+		h.ghostGen = h.havocGen
 		u.warn("%s: loop %d contains an opaque call: whole heap havoced at the loop head", a.fn, li.ord)
 	} else {
 		var names []string
